@@ -333,6 +333,17 @@ func (sc *SubCache[EntityT, ExcerptT, CacheT]) SetCacheSize(size int) {
 func (sc *SubCache[EntityT, ExcerptT, CacheT]) Close() error {
 	sc.mu.Lock()
 	defer sc.mu.Unlock()
+
+	// Operations that were added and never committed are lost now, but the excerpts and the index
+	// on disk already describe them (they are written at each edit). Drop the cache file, so that
+	// the next process rebuilds the cache from git instead of listing what was never stored.
+	for _, e := range sc.cached {
+		if e.NeedCommit() {
+			_ = sc.repo.LocalStorage().Remove(filepath.Join("cache", sc.namespace))
+			break
+		}
+	}
+
 	sc.excerpts = nil
 	sc.cached = make(map[entity.Id]CacheT)
 	return nil
